@@ -22,8 +22,11 @@ def groups(tier):
                 clause='split terminates (loop invariants + variants on all four loops) for every threshold and share count 0..255, '
                        'yields share_count shares, and raises invalid_argument exactly for t = 0, n = 0 or t > n')]
     U = {'crypto__build_exp_table': 513, 'crypto__build_log_table': 257}
-    # (a group for evaluate_polynomial == the polynomial over the specification product exists in the harness (h_evalpoly); chained table
-    #  look-ups with symbolic indices: not decided within 15 minutes, so it is not registered -- seed C10-b is therefore not detected)
+    G += [Group('split.polynomial.deg1', 'shamir_b', 'C10/gf.c', entry='h_evalpoly', defines=['SHAMIR_UNIT_B', 'DEG=1', 'CXX_FIXED_STORAGE', 'CXX_VEC_CAP=8'], unwind=10, unwind_by=U,
+                checks=['--bounds-check', '--pointer-check'], kind='bounded', bound='polynomials of degree <= 1 (threshold <= 2): every x, constant term and coefficient', timeout=1800, backend=['sat', 'cadical'], replay='poly',
+                clause='evaluate_polynomial == c0 + c1 x over the carry-less GF(2^8) product (what split evaluates for every share index and secret byte, threshold 2)')]
+    # (degree 2 -- where a wrong power accumulation such as seed C10-b would show -- is not decided within 25 minutes: chained table look-ups with
+    #  symbolic indices; it is not registered)
     for t in (1, 2, 3, 4):
         G += [Group(f'combine.rejects.t={t}', 'shamir_b', 'C10/gf.c', entry='h_combine_rejects', defines=['T_MAX=4', f'T_FIX={t}', 'SHAMIR_UNIT_B', 'CXX_VEC_CAP=8', 'CXX_FIXED_STORAGE'],
                 stub=['crypto__gf_mul', 'crypto__gf_div'], unwind=34,
